@@ -1,5 +1,6 @@
 import CKT.Model.Gates
 import CKT.Sem.Instr
+import CKT.Sem.Measure
 /-!
 # The concrete matrices of `CKT.Sem` are the transfer matrices of the channel model
 
@@ -17,6 +18,26 @@ theorem resetM_is_channel_ptm : ∀ a b : Fin 4,
 theorem swapM_is_channel_ptm : ∀ x y x' y' : Fin 4,
     PO.rget (PO.ptm2 [(false, uSwap)]) (4 * y.val + x.val) (4 * y'.val + x'.val)
       = pc (if x' = y ∧ y' = x then 1 else 0) := by
+  decide +kernel
+
+/-- the standard projectors of `Sem/Measure` (with one half = 1/2) are the transfer matrices of `Π₀`, `Π₁` -/
+theorem stdProj_is_channel_ptm : ∀ (bit : Bool) (a b : Fin 4),
+    PO.rget (PO.ptm1 [(false, if bit then P1m else P0m)]) a.val b.val = pc (stdProj (K := Rat) (1/2) bit [a] [b]) := by
+  decide +kernel
+
+/-- the `qpd_measure` marker of the channel model (signed Kraus pair `+Π₀, −Π₁`) is `proj₀ − proj₁` -/
+theorem marker_is_signed_projectors : ∀ (a b : Fin 4),
+    PO.rget (PO.ptm1 krausMeas) a.val b.val = pc (stdProj (K := Rat) (1/2) false [a] [b] + sgn true true * stdProj (K := Rat) (1/2) true [a] [b]) := by
+  decide +kernel
+
+/-- basis rotations: `h` and `sx` are trace preserving and their `Z` row is the unit vector at `X` resp. `Y`
+(measuring `Z` after the rotation measures `X` resp. `Y`) -/
+theorem h_rows : ∀ y : Fin 4, PO.rget (PO.ptm1 [(false, uH)]) 0 y.val = pc (if y = 0 then 1 else 0) ∧
+    PO.rget (PO.ptm1 [(false, uH)]) 3 y.val = pc (if y = 1 then 1 else 0) := by
+  decide +kernel
+
+theorem sx_rows : ∀ y : Fin 4, PO.rget (PO.ptm1 [(false, uSX)]) 0 y.val = pc (if y = 0 then 1 else 0) ∧
+    PO.rget (PO.ptm1 [(false, uSX)]) 3 y.val = pc (if y = 2 then 1 else 0) := by
   decide +kernel
 
 end CKT.Sem
